@@ -115,6 +115,32 @@ def run(m: Model, r: Report, tier: str) -> None:
             "the argparse default must be the value part of the extra default", loc=pf.loc)
     r.check("self.info.is_required() and self.extra_default is None" in ar, "R2", f"{pf.qualname}.arg_required#lifted-by-default",
             "an option with an env/file default must not stay required", loc=pf.loc)
+    # both helpers as truth tables over (extra default present?, ArgFieldInfo?, positional?, required?)
+    import itertools
+    from sa import miniterp
+    bad_d, bad_r = [], []
+    for xd, isarg, pos, req in itertools.product([None, ("environment variable (GALLIA_X)", 5)], [True, False], [True, False], [True, False]):
+        env = {"self.extra_default": xd, "self.info.positional": pos, "self.name": "x"}
+        def oracle(call, env_, isarg=isarg, req=req):
+            t = ast.unparse(call.func)
+            if t == "isinstance" and ast.unparse(call.args[0]) == "self.info":
+                return isarg
+            if t == "self.info.is_required":
+                return req
+            return NotImplemented
+        row = f"extra_default={'set' if xd else 'None'}, ArgFieldInfo={isarg}, positional={pos}, required={req}"
+        ret, renv = miniterp.run_function(pf.methods["arg_default"].node, env, oracle)
+        got = miniterp.eval_expr(ret.value, renv, oracle) if ret is not None and ret.value is not None else None
+        want = {} if xd is None or (isarg and pos) else {"default": 5}
+        if got != want:
+            bad_d.append(f"{row} -> {got}")
+        ret, renv = miniterp.run_function(pf.methods["arg_required"].node, env, oracle)
+        got = miniterp.eval_expr(ret.value, renv, oracle) if ret is not None and ret.value is not None else None
+        want = {} if (isarg and pos) else {"required": bool(req and xd is None)}
+        if got != want:
+            bad_r.append(f"{row} -> {got}")
+    r.check(not bad_d, "R2", f"{pf.qualname}.arg_default#table", f"{bad_d[:3]}: an option (not a positional) with an env/file value must get exactly that value as argparse default", loc=pf.loc)
+    r.check(not bad_r, "R2", f"{pf.qualname}.arg_required#table", f"{bad_r[:3]}: an option is required iff the field is required and no env/file value exists", loc=pf.loc)
     am = m.require_function(f"{PARSER}.ArgumentParser._add_model")
     r.check("field.extra_default = self.extra_defaults[model][field.name]" in ast.unparse(am.node), "R2", f"{am.qualname}#attaches-extra-default",
             "extra defaults must be attached to the field before it is parsed", loc=am.loc)
